@@ -208,6 +208,10 @@ def check(spec):
     out = {'paths': counter.get('num_paths', 0), 'harness_calls': vkopf.PATHS,
            'nontrivial_paths': vkopf.NONTRIVIAL_PATHS, 'tags': dict(vkopf.TAG_COUNTS),
            'wall_s': round(wall, 2), 'cpu_s': round(time.process_time(), 1), **{k: (round(v, 3) if isinstance(v, float) else v) for k, v in stats.items()}}
+    from vkopf import symloop as _sl
+    if _sl.TASK_FAULTS:
+        out['task_faults'] = len(_sl.TASK_FAULTS)
+        out['task_fault_sample'] = sorted(set(_sl.TASK_FAULTS))[:3]
     states = {m.state for m in msgs}
     text = ' | '.join(f'{m.state.name}: {m.message}' for m in msgs)
     out['message'] = text[:2000]
